@@ -515,10 +515,10 @@ func TestWrapHonest(t *testing.T) {
 }
 
 func init() {
-	pb.Register("ring_fifo", pb.Options{Base: 15000, Required: []string{"recap wrapped", "recap shrink to exactly Len", "expand wrapped"},
+	pb.Register("ring_fifo", pb.Options{Twins: 3, Base: 15000, Required: []string{"recap wrapped", "recap shrink to exactly Len", "expand wrapped"},
 		Rule: "Ring of capacity 1..8, <= 60 operations Push/Pop/Peek/PushWithExpand/Recap(-1..20)/rotate k/Init; oracle: slice model, every return value and Len/Cap/IsEmpty/IsFull/Peek after every step, final drain; Recap succeeds iff c>0, c!=Cap, c>=Len; non-trivial = Recap or PushWithExpand executed while the live region is wrapped (head > tail, read by reflection for classification only)"},
 		genRing, runRing)
-	pb.Register("syncring_sequential", pb.Options{Base: 15000, Required: []string{"counter within Cap of 2^32", "wrap crossed", "exact power of two requested", "capacity 1 requested"},
+	pb.Register("syncring_sequential", pb.Options{Twins: 3, Base: 15000, Required: []string{"counter within Cap of 2^32", "wrap crossed", "exact power of two requested", "capacity 1 requested"},
 		Rule: "SyncRing with requested capacity 1..40 (Cap = next power of two >= max(2,c)), optionally fast-forwarded (self-validated reflection helper) to the state k push/pop pairs produce with k near 2^32, near 2^31 or uniform, then filled to a drawn level; <= 60 operations Push/Pop/PushWait(0)/PopWait(0)/rotate; oracle: slice model, Len/IsEmpty/IsFull/Cap after every step, final drain; non-trivial = a push executed with the tail counter within Cap of 2^32"},
 		genSync, runSync)
 	pb.Register("capacity", pb.Options{Base: 120, Required: []string{"requested capacity above 2^17", "SyncRing rounds up"},
